@@ -61,7 +61,29 @@ DELTAS = [0, 1, 2, 3, 5, 0.125, 0.5, 0.875, 1.5, 2.25, 2.5, 0.1, 0.3, 1.7,
 def dec_delta(d):
   return Fraction(d) if isinstance(d, str) else d
 CONTAINERS = ["list", "tuple", "gen", "stream", "src", "seqproto", "submix",
-              "hub1", "hub2", "substream", "deque", "iter"]
+              "hub1", "hub2", "substream", "deque", "iter", "unhashable"]
+
+
+class UnhashableIter(object):
+  """ A legal iterator that compares by value and therefore cannot be
+  hashed (what a @dataclass iterator is). """
+  __hash__ = None
+
+  def __init__(self, values):
+    self.values, self.pos = list(values), 0
+
+  def __eq__(self, other):
+    return isinstance(other, UnhashableIter) and \
+      (self.values, self.pos) == (other.values, other.pos)
+
+  def __iter__(self):
+    return self
+
+  def __next__(self):
+    if self.pos >= len(self.values):
+      raise StopIteration
+    self.pos += 1
+    return self.values[self.pos - 1]
 
 
 def _a_callable_value():
@@ -403,6 +425,8 @@ class C16(Property):
         def __iter__(self):
           return iter(vals)
       return Played([987654321] * (len(vals) + 2))
+    if box == "unhashable":
+      return UnhashableIter(values)
     if box == "deque":
       import collections
       return collections.deque(values)
